@@ -1,0 +1,71 @@
+//go:build verif
+
+// Round 5, area I: contracts for the start-up, the reader loop and the shutdown of to_nsq (C20). Comment-only file.
+// Assumed library contracts: .trusted/r5I.spec (package flag, go-nsq Config), relay.spec (ReadBytes, Publish).
+
+package main
+
+// log.Fatal / log.Fatalf print and call os.Exit(1): they do not return (assumed at calls from this package).
+//@ extern[in github.com/nsqio/nsq/apps/to_nsq] log.Fatal(v)
+//@   ensures[does-not-return] false
+//@   modifies
+//@ extern[in github.com/nsqio/nsq/apps/to_nsq] log.Fatalf(format, v)
+//@   ensures[does-not-return] false
+//@   modifies
+// go-nsq producers as seen from this package (ASSUMED; recorded): NewProducer gives a producer or an error; Stop is recorded in the
+// grow-only set r5ITStopped.
+//@ ghost r5ITStopped set[*nsq.Producer]
+//@ extern[in github.com/nsqio/nsq/apps/to_nsq] github.com/nsqio/go-nsq.NewProducer(addr, config) (p, err)
+//@   requires config != nil
+//@   ensures[producer-or-error] (err == nil) <==> (p != nil)
+//@   ensures[new] p != nil ==> fresh(p)
+//@   modifies
+//@ extern[in github.com/nsqio/nsq/apps/to_nsq] (*github.com/nsqio/go-nsq.Producer).Stop(p)
+//@   requires p != nil
+//@   modifies r5ITStopped
+//@   onreturn r5ITStopped := setadd(r5ITStopped, p)
+// bufio.NewReader returns a reader; atomic counters of the throttle: no modelled state.
+//@ extern[in github.com/nsqio/nsq/apps/to_nsq] bufio.NewReader(rd) (r)
+//@   ensures r != nil
+//@   modifies
+//@ benign sync/atomic.AddInt64, sync/atomic.LoadInt64, sync/atomic.StoreInt64
+
+// Calls of readAndPublish (set by its contract): how many, the result of the last one, the number of input bytes they consumed in total
+// (readAndPublish/[one-read]: each call advances the input by exactly the line it read).
+//@ ghost r5ITReads int
+//@ ghost r5ITLastErr error
+//@ ghost r5ITConsumed int
+//@ ghostgroup r5ITReads, r5ITLastErr, r5ITConsumed
+
+// The reader goroutine (C20 "publishes each non-empty delimiter-separated record of its input ... in order"; rate limiting must only
+// DELAY): every iteration makes exactly one readAndPublish call whatever the throttle balance is - the only thing the throttle does
+// before it is sleep - and the input is consumed by nothing else ([input-consumed-only-by-readAndPublish]: a record read and thrown away
+// to "keep the rate" would move the input position without a readAndPublish). The loop - and with it the tool - ends only when
+// readAndPublish reported io.EOF; any other error is fatal.
+//@ func main$2()
+//@   props C20
+//@   requires r != nil && topic != nil
+//@   requires[producers-nonnil] producers != nil && (forall k string :: {producers[k]} has(producers, k) ==> producers[k] != nil)
+//@   ensures[ends-only-at-end-of-input] r5ITReads > old(r5ITReads) && r5ITLastErr == io.EOF
+//@   ensures[input-consumed-only-by-readAndPublish] rPos - old(rPos) == r5ITConsumed - old(r5ITConsumed)
+//@   loop 0
+//@     invariant[input-consumed-only-by-readAndPublish] rPos - old(rPos) == r5ITConsumed - old(r5ITConsumed)
+//@     invariant[no-error-so-far] r5ITReads > old(r5ITReads) ==> r5ITLastErr == nil
+//@     invariant[reads-grow] r5ITReads >= old(r5ITReads)
+//@     invariant[producers-nonnil] r != nil && topic != nil && producers != nil && (forall k string :: {producers[k]} has(producers, k) ==> producers[k] != nil)
+
+// main: --topic and a one-byte --delimiter are required; one producer per destination address, a failed constructor is fatal, and at
+// least one producer is required; at exit (signal or end of input) EVERY producer is stopped - Stop flushes the producer's outstanding
+// publishes (loop `exit` clause: the Stop loop is never left before the last producer).
+//@ func main()
+//@   props C20
+//   (Go package initialisation: the package-level flag variables are set before main runs)
+//@   requires[flags-initialised] topic != nil && delimiter != nil
+//@   ensures[nothing-published-by-main-itself] pubCount == old(pubCount)
+//@   loop 0
+//@     invariant[producers-so-far] producers != nil && (forall k string :: {producers[k]} has(producers, k) ==> producers[k] != nil)
+//@     invariant[flags] cfg != nil && len(*topic) != 0 && len(*delimiter) == 1
+//@   loop 1
+//@     invariant[visited-stopped] forall k string :: {producers[k]} visited(k) ==> setin(r5ITStopped, producers[k])
+//@     invariant[producers-nonnil] forall k string :: {producers[k]} has(producers, k) ==> producers[k] != nil
+//@     exit[every-producer-stopped] forall k string :: {producers[k]} has(producers, k) ==> setin(r5ITStopped, producers[k])
